@@ -7,19 +7,89 @@ namespace Tunnox.C17
 def inside : PC → Bool
   | .idle => false
   | .waiting => false
+  | .revoking _ => false
   | _ => true
 
+/-- Active items that the scan has still ahead of it. -/
+def ahead (rest occ : List Nat) : Nat := (occ.filter (fun x => decide (x ∈ rest))).length
+
+theorem ahead_nil (occ : List Nat) : ahead [] occ = 0 := by simp [ahead]
+
+theorem ahead_all (idx occ : List Nat) (h : ∀ x ∈ occ, x ∈ idx) : ahead idx occ = occ.length := by
+  unfold ahead
+  rw [List.filter_eq_self.mpr]
+  intro x hx
+  simpa using h x hx
+
+theorem ahead_cons (e : Nat) (r : List Nat) : ∀ occ : List Nat, occ.Nodup →
+    ahead (e :: r) occ ≤ ahead r occ + (if e ∈ occ then 1 else 0) := by
+  intro occ
+  induction occ with
+  | nil => intro _; simp [ahead]
+  | cons a t ih =>
+    intro hnd
+    have hat := (List.nodup_cons.mp hnd).1
+    have ih' := ih (List.nodup_cons.mp hnd).2
+    unfold ahead at *
+    rw [List.filter_cons, List.filter_cons]
+    by_cases hae : a = e
+    · subst hae
+      have h1 : decide (a ∈ a :: r) = true := by simp
+      have h2 : a ∈ a :: t := List.mem_cons_self
+      simp only [hat, if_false] at ih'
+      rw [h1]
+      simp only [if_true, List.length_cons, h2]
+      by_cases har : a ∈ r
+      · simp only [har, decide_true, if_true, List.length_cons]; omega
+      · simp only [har, decide_false, Bool.false_eq_true, if_false]; omega
+    · have hea : ¬ e = a := fun x => hae x.symm
+      have h1 : decide (a ∈ e :: r) = decide (a ∈ r) := by simp [hae]
+      have h2 : (e ∈ a :: t) ↔ e ∈ t := by simp [hea]
+      rw [h1]
+      simp only [h2]
+      by_cases har : a ∈ r
+      · simp only [har, decide_true, if_true, List.length_cons]; omega
+      · simp only [har, decide_false, Bool.false_eq_true, if_false]; omega
+
+theorem scan_advance {occ : List Nat} (hnd : occ.Nodup) (e : Nat) (r : List Nat) (acc : Nat)
+    (h : occ.length ≤ acc + ahead (e :: r) occ) :
+    occ.length ≤ (acc + (if e ∈ occ then 1 else 0)) + ahead r occ := by
+  have := ahead_cons e r occ hnd
+  omega
+
+theorem filter_erase_le (p : Nat → Bool) (j : Nat) : ∀ l : List Nat, (l.filter p).length ≤ ((l.erase j).filter p).length + 1 := by
+  intro l
+  induction l with
+  | nil => simp
+  | cons a t ih =>
+    by_cases haj : a = j
+    · subst haj
+      simp only [List.erase_cons_head, List.filter_cons]
+      split <;> simp
+    · have : (a == j) = false := by simpa using haj
+      simp only [List.erase_cons, this, Bool.false_eq_true, if_false, List.filter_cons]
+      split <;> simp <;> omega
+
+theorem scan_erase {occ : List Nat} (j : Nat) (hj : j ∈ occ) (rest : List Nat) (acc : Nat)
+    (h : occ.length ≤ acc + ahead rest occ) : (occ.erase j).length ≤ acc + ahead rest (occ.erase j) := by
+  have h1 := List.length_erase_of_mem hj
+  have h2 := filter_erase_le (fun x => decide (x ∈ rest)) j occ
+  have hpos : occ.length ≥ 1 := List.length_pos_of_mem hj
+  unfold ahead at *
+  omega
+
 /-- Facts about one thread when every request goes through instance `I`. -/
-structure TOk (P : Proto) (limit I occLen : Nat) (locks : List Nat) (t : Thread) : Prop where
+structure TOk (P : Proto) (limit I : Nat) (occ : List Nat) (locks : List Nat) (t : Thread) : Prop where
   inst : t.ops ≠ [] → t.inst = I
   winst : t.pc ≠ .idle → t.inst = I
   held : inside t.pc = true → I ∈ locks
-  cnt : ∀ snap k, t.pc = .counting snap k → occLen ≤ snap
-  pas : ∀ snap k, t.pc = .passed snap k → occLen ≤ snap ∧ full P limit snap = false
+  cnt : ∀ snap k, t.pc = .counting snap k → occ.length ≤ snap
+  pas : ∀ snap k, t.pc = .passed snap k → occ.length ≤ snap ∧ full P limit snap = false
+  scn : ∀ rest acc, t.pc = .scanning rest acc → occ.length ≤ acc + ahead rest occ
 
 structure InvB (P : Proto) (limit pre I : Nat) (c : Cfg) : Prop where
   base : Base P.zeroUnl limit pre c
-  thr : ∀ i, TOk P limit I c.occ.length c.locks (c.threads i)
+  thr : ∀ i, TOk P limit I c.occ c.locks (c.threads i)
   excl : ∀ i j, inside (c.threads i).pc = true → inside (c.threads j).pc = true → i = j
 
 theorem inside_counting {pc : PC} {s k : Nat} (h : pc = .counting s k) : inside pc = true := by rw [h]; rfl
@@ -28,8 +98,9 @@ theorem inside_passed {pc : PC} {s k : Nat} (h : pc = .passed s k) : inside pc =
 /-- One thread, the occupancy and the lock set change; the other threads keep their facts. -/
 theorem invB_upd {P : Proto} {limit pre I : Nat} {c : Cfg} (h : InvB P limit pre I c) (tid : Nat) (t' : Thread)
     (c' : Cfg) (hb : Base P.zeroUnl limit pre c') (hthr : c'.threads = upd c.threads tid t')
-    (ht' : TOk P limit I c'.occ.length c'.locks t')
-    (hother : ∀ j, j ≠ tid → inside (c.threads j).pc = true → c'.occ.length ≤ c.occ.length ∧ I ∈ c'.locks)
+    (ht' : TOk P limit I c'.occ c'.locks t')
+    (hother : ∀ j, j ≠ tid → inside (c.threads j).pc = true → c'.occ.length ≤ c.occ.length ∧ I ∈ c'.locks ∧
+      ∀ rest acc, (c.threads j).pc = .scanning rest acc → c'.occ.length ≤ acc + ahead rest c'.occ)
     (hex : inside t'.pc = true → ∀ j, j ≠ tid → inside (c.threads j).pc = false) : InvB P limit pre I c' := by
   refine ⟨hb, ?_, ?_⟩
   · intro i
@@ -38,12 +109,14 @@ theorem invB_upd {P : Proto} {limit pre I : Nat} {c : Cfg} (h : InvB P limit pre
     · subst hi; rw [upd_self]; exact ht'
     · rw [upd_ne _ _ _ _ hi]
       have old := h.thr i
-      refine ⟨old.inst, old.winst, ?_, ?_, ?_⟩
-      · intro hpc; exact (hother i hi hpc).2
+      refine ⟨old.inst, old.winst, ?_, ?_, ?_, ?_⟩
+      · intro hpc; exact (hother i hi hpc).2.1
       · intro snap k hpc
         exact Nat.le_trans (hother i hi (inside_counting hpc)).1 (old.cnt snap k hpc)
       · intro snap k hpc
         exact ⟨Nat.le_trans (hother i hi (inside_passed hpc)).1 (old.pas snap k hpc).1, (old.pas snap k hpc).2⟩
+      · intro rest acc hpc
+        exact (hother i hi (by rw [hpc]; rfl)).2.2 rest acc hpc
   · intro i j hi hj
     rw [hthr] at hi hj
     by_cases e1 : i = tid
@@ -70,13 +143,14 @@ theorem others_out {P : Proto} {limit pre I : Nat} {c : Cfg} (h : InvB P limit p
   | false => rfl
   | true => exact absurd (h.excl j tid hin hpc) hj
 
-theorem idleThread_ok {P : Proto} {limit I n : Nat} {locks : List Nat} (t t' : Thread)
+theorem idleThread_ok {P : Proto} {limit I : Nat} {n locks : List Nat} (t t' : Thread)
     (hpc : t'.pc = .idle) (hinst : t'.inst = t.inst) (hops : t'.ops ≠ [] → t.ops ≠ [])
     (ho : t.ops ≠ [] → t.inst = I) : TOk P limit I n locks t' := by
-  refine ⟨?_, ?_, ?_, ?_, ?_⟩
+  refine ⟨?_, ?_, ?_, ?_, ?_, ?_⟩
   · intro hh; rw [hinst]; exact ho (hops hh)
   · intro hh; exact absurd hpc hh
   · intro hh; rw [hpc] at hh; cases hh
+  · intro s k hh; rw [hpc] at hh; cases hh
   · intro s k hh; rw [hpc] at hh; cases hh
   · intro s k hh; rw [hpc] at hh; cases hh
 
@@ -94,16 +168,17 @@ theorem invB_handover {P : Proto} {limit pre I : Nat} {c : Cfg} (h : InvB P limi
     simp only [Bool.and_eq_true, decide_eq_true_eq] at hp
     have old := h.thr t
     refine invB_upd h t { c.threads t with pc := .locked } _ ?_ rfl ?_ ?_ ?_
-    · exact base_congr h.base rfl rfl rfl
-    · refine ⟨old.inst, fun _ => by rw [← hinst]; exact hp.2, fun _ => hI, ?_, ?_⟩
+    · exact base_congr h.base rfl rfl rfl rfl
+    · refine ⟨old.inst, fun _ => by rw [← hinst]; exact hp.2, fun _ => hI, ?_, ?_, ?_⟩
+      · intro s k hh; cases hh
       · intro s k hh; cases hh
       · intro s k hh; cases hh
     · intro j _ hj; rw [hnone j] at hj; cases hj
     · intro _ j _; exact hnone j
-  · refine ⟨base_congr h.base rfl rfl rfl, ?_, h.excl⟩
+  · refine ⟨base_congr h.base rfl rfl rfl rfl, ?_, h.excl⟩
     intro i
     have old := h.thr i
-    refine ⟨old.inst, old.winst, ?_, old.cnt, old.pas⟩
+    refine ⟨old.inst, old.winst, ?_, old.cnt, old.pas, old.scn⟩
     intro hh; rw [hnone i] at hh; cases hh
 
 /-- After the thread inside has finished its operation nobody is inside. -/
@@ -164,15 +239,76 @@ theorem invB_admit {P : Proto} {limit pre I : Nat} {c : Cfg} (h : InvB P limit p
 theorem invB_stp_in {P : Proto} {limit pre I : Nat} {c : Cfg} (h : InvB P limit pre I c) (tid : Nat) (pc' : PC)
     (hpc : inside (c.threads tid).pc = true)
     (hc : ∀ snap k, pc' = .counting snap k → c.occ.length ≤ snap)
-    (hp : ∀ snap k, pc' = .passed snap k → c.occ.length ≤ snap ∧ full P limit snap = false) :
+    (hp : ∀ snap k, pc' = .passed snap k → c.occ.length ≤ snap ∧ full P limit snap = false)
+    (hs : ∀ rest acc, pc' = .scanning rest acc → c.occ.length ≤ acc + ahead rest c.occ) :
     InvB P limit pre I (stpCfg c tid { c.threads tid with pc := pc' } c.locks) := by
   have hid := others_out h tid hpc
   have old := h.thr tid
   have hne : (c.threads tid).pc ≠ .idle := by intro e; rw [e] at hpc; cases hpc
   apply invB_upd h tid { c.threads tid with pc := pc' } _ (base_stp h.base tid _ _) rfl
-  · exact ⟨old.inst, fun _ => old.winst hne, fun _ => old.held hpc, hc, hp⟩
+  · exact ⟨old.inst, fun _ => old.winst hne, fun _ => old.held hpc, hc, hp, hs⟩
   · intro j hj hin; rw [hid j hj] at hin; cases hin
   · intro _; exact hid
+
+/-- The plain insert that is followed by further operations inside the critical section. -/
+theorem invB_admitHold {P : Proto} {limit pre I : Nat} {c : Cfg} (h : InvB P limit pre I c) (tid : Nat)
+    (hpc : inside (c.threads tid).pc = true) (hcap : capOk P.zeroUnl limit (c.occ.length + 1) = true) :
+    InvB P limit pre I (admitHold P c tid) := by
+  have hid := others_out h tid hpc
+  have old := h.thr tid
+  have hne : (c.threads tid).pc ≠ .idle := by intro e; rw [e] at hpc; cases hpc
+  refine invB_upd h tid { c.threads tid with own := some c.next, pc := .noise (P.post - 1) } (admitHold P c tid)
+    (base_congr (base_admitCore h.base tid hcap) rfl rfl rfl rfl) rfl ?_ ?_ ?_
+  · exact ⟨old.inst, fun _ => old.winst hne, fun _ => old.held hpc, fun s k hh => (by cases hh), fun s k hh => (by cases hh), fun r a hh => (by cases hh)⟩
+  · intro j hj hin; rw [hid j hj] at hin; cases hin
+  · intro _; exact hid
+
+/-- A step of a thread that is not in the critical section and only moves its own program counter. -/
+theorem invB_stp_out {P : Proto} {limit pre I : Nat} {c : Cfg} (h : InvB P limit pre I c) (tid : Nat) (pc' : PC)
+    (hI : (c.threads tid).inst = I) (hout : inside pc' = false)
+    (hc : ∀ snap k, pc' ≠ .counting snap k) (hp : ∀ snap k, pc' ≠ .passed snap k)
+    (hs : ∀ rest acc, pc' ≠ .scanning rest acc) :
+    InvB P limit pre I (stpCfg c tid { c.threads tid with pc := pc' } c.locks) := by
+  have old := h.thr tid
+  refine invB_upd h tid { c.threads tid with pc := pc' } _ (base_stp h.base tid _ _) rfl ?_ ?_ ?_
+  · exact ⟨old.inst, fun _ => hI, fun hh => (by rw [hout] at hh; cases hh), fun s k hh => absurd hh (hc s k),
+      fun s k hh => absurd hh (hp s k), fun r a hh => absurd hh (hs r a)⟩
+  · intro j _ hj; exact ⟨Nat.le_refl _, (h.thr j).held hj, (h.thr j).scn⟩
+  · intro hh; rw [hout] at hh; cases hh
+
+theorem invB_end {P : Proto} {limit pre I : Nat} {c : Cfg} (h : InvB P limit pre I c) (tid : Nat) :
+    InvB P limit pre I (endCfg c tid) := by
+  have old := h.thr tid
+  refine invB_upd h tid { finishOp (c.threads tid) with own := none } (endCfg c tid) (base_end h.base tid) rfl ?_ ?_ ?_
+  · exact idleThread_ok (c.threads tid) _ rfl rfl (fun hh => tail_ne_nil _ hh) old.inst
+  · intro j _ hj; exact ⟨Nat.le_refl _, (h.thr j).held hj, (h.thr j).scn⟩
+  · intro hh; cases hh
+
+theorem invB_revoke {P : Proto} {limit pre I : Nat} {c : Cfg} (h : InvB P limit pre I c) (tid k : Nat) (fail : Bool)
+    (hI : (c.threads tid).inst = I) : InvB P limit pre I (revokeStep c tid k fail) := by
+  have old := h.thr tid
+  have hst : ∀ k', InvB P limit pre I (stpCfg c tid { c.threads tid with pc := .revoking k' } c.locks) :=
+    fun k' => invB_stp_out h tid _ hI rfl (by intro s k hh; cases hh) (by intro s k hh; cases hh) (by intro r a hh; cases hh)
+  unfold revokeStep
+  split
+  · split
+    · exact invB_end h tid
+    · exact hst 1
+  · exact hst _
+  · exact hst _
+  · split
+    · exact hst 4
+    · split
+      · exact hst 4
+      · rename_i it _
+        by_cases hin : it ∈ c.occ
+        · simp only [hin, if_true]
+          refine invB_upd h tid { c.threads tid with pc := .revoking 4 } _ (base_rel h.base tid it _ hin) rfl ?_ ?_ ?_
+          · exact ⟨old.inst, fun _ => hI, fun hh => (by cases hh), fun s k hh => (by cases hh), fun s k hh => (by cases hh), fun r a hh => (by cases hh)⟩
+          · intro j _ hj; exact ⟨erase_length_le _ _, (h.thr j).held hj, fun r a hp => scan_erase _ hin r a ((h.thr j).scn r a hp)⟩
+          · intro hh; cases hh
+        · simp only [hin, if_false]; exact hst 4
+  · exact invB_end h tid
 
 theorem invB_check {P : Proto} {limit pre I : Nat} {c : Cfg} (h : InvB P limit pre I c) (tid snap : Nat)
     (hm : P.mutex = true) (hpc : inside (c.threads tid).pc = true) (hs : c.occ.length ≤ snap) :
@@ -182,7 +318,7 @@ theorem invB_check {P : Proto} {limit pre I : Nat} {c : Cfg} (h : InvB P limit p
   | true => simpa using invB_refuse h tid hm hpc
   | false =>
     simp only [Bool.false_eq_true, if_false]
-    apply invB_stp_in h tid _ hpc
+    refine invB_stp_in h tid _ hpc ?_ ?_ (by intro r a hh; cases hh)
     · intro s k hh; cases hh
     · intro s k hh
       simp only [PC.passed.injEq] at hh
@@ -195,7 +331,7 @@ theorem invB_noise {P : Proto} {limit pre I : Nat} {c : Cfg} (h : InvB P limit p
   split
   · split
     · exact invB_done h tid hm hpc
-    · exact invB_stp_in h tid _ hpc (by intro s k hh; cases hh) (by intro s k hh; cases hh)
+    · exact invB_stp_in h tid _ hpc (by intro s k hh; cases hh) (by intro s k hh; cases hh) (by intro r a hh; cases hh)
   · exact invB_done h tid hm hpc
 
 /-- `Lock()`: enter when nobody is inside, else queue up. -/
@@ -206,11 +342,12 @@ theorem invB_lock {P : Proto} {limit pre I : Nat} {c : Cfg} (h : InvB P limit pr
   unfold lockStep
   by_cases hl : (c.threads tid).inst ∈ c.locks
   · simp only [hl, if_true]
-    refine invB_upd h tid { c.threads tid with pc := .waiting } (waitCfg c tid) (base_blk h.base tid rfl rfl rfl) rfl ?_ ?_ ?_
-    · refine ⟨old.inst, fun _ => hI, fun hh => (by cases hh), ?_, ?_⟩
+    refine invB_upd h tid { c.threads tid with pc := .waiting } (waitCfg c tid) (base_blk h.base tid rfl rfl rfl rfl) rfl ?_ ?_ ?_
+    · refine ⟨old.inst, fun _ => hI, fun hh => (by cases hh), ?_, ?_, ?_⟩
       · intro s k hh; cases hh
       · intro s k hh; cases hh
-    · intro j _ hj; exact ⟨Nat.le_refl _, (h.thr j).held hj⟩
+      · intro s k hh; cases hh
+    · intro j _ hj; exact ⟨Nat.le_refl _, (h.thr j).held hj, (h.thr j).scn⟩
     · intro hh; cases hh
   · simp only [hl, if_false]
     have hfree : ∀ j, inside (c.threads j).pc = false := by
@@ -222,8 +359,9 @@ theorem invB_lock {P : Proto} {limit pre I : Nat} {c : Cfg} (h : InvB P limit pr
         rw [← hI] at this
         exact absurd this hl
     apply invB_upd h tid { c.threads tid with pc := .locked } _ (base_stp h.base tid _ _) rfl
-    · refine ⟨old.inst, fun _ => hI, fun _ => ?_, ?_, ?_⟩
+    · refine ⟨old.inst, fun _ => hI, fun _ => ?_, ?_, ?_, ?_⟩
       · simp only [stpCfg, hI]; exact List.mem_cons_self
+      · intro s k hh; cases hh
       · intro s k hh; cases hh
       · intro s k hh; cases hh
     · intro j _ hj; rw [hfree j] at hj; cases hj
@@ -240,19 +378,19 @@ theorem invB_step {P : Proto} {limit pre I : Nat} {c : Cfg} (h : InvB P limit pr
     split
     · apply invB_upd h tid { finishOp (c.threads tid) with own := none } _ (base_nop h.base tid) rfl
       · exact idleThread_ok (c.threads tid) _ rfl rfl (fun hh => tail_ne_nil _ hh) old.inst
-      · intro j _ hj; exact ⟨Nat.le_refl _, (h.thr j).held hj⟩
+      · intro j _ hj; exact ⟨Nat.le_refl _, (h.thr j).held hj, (h.thr j).scn⟩
       · intro hh; cases hh
     · rename_i it _
       by_cases hin : it ∈ c.occ
       · simp only [hin, if_true]
         apply invB_upd h tid { finishOp (c.threads tid) with own := none } _ (base_rel h.base tid it _ hin) rfl
         · exact idleThread_ok (c.threads tid) _ rfl rfl (fun hh => tail_ne_nil _ hh) old.inst
-        · intro j _ hj; exact ⟨erase_length_le _ _, (h.thr j).held hj⟩
+        · intro j _ hj; exact ⟨erase_length_le _ _, (h.thr j).held hj, fun r a hp => scan_erase _ hin r a ((h.thr j).scn r a hp)⟩
         · intro hh; cases hh
       · simp only [hin, if_false]
         apply invB_upd h tid { finishOp (c.threads tid) with own := none } _ (base_nop h.base tid) rfl
         · exact idleThread_ok (c.threads tid) _ rfl rfl (fun hh => tail_ne_nil _ hh) old.inst
-        · intro j _ hj; exact ⟨Nat.le_refl _, (h.thr j).held hj⟩
+        · intro j _ hj; exact ⟨Nat.le_refl _, (h.thr j).held hj, (h.thr j).scn⟩
         · intro hh; cases hh
   · -- acquire
     rename_i hops
@@ -262,21 +400,37 @@ theorem invB_step {P : Proto} {limit pre I : Nat} {c : Cfg} (h : InvB P limit pr
     · rename_i hpc
       simp only [hm, hfu, if_true, Bool.false_eq_true, if_false]
       exact invB_lock h tid hI hpc
-    · exact ⟨base_blk (c' := blkCfg c tid) h.base tid rfl rfl rfl, h.thr, h.excl⟩
+    · exact ⟨base_blk (c' := blkCfg c tid) h.base tid rfl rfl rfl rfl, h.thr, h.excl⟩
     · -- locked: read
       rename_i hpc
       have hni : inside (c.threads tid).pc = true := by rw [hpc]; rfl
       simp only [hfu, Bool.false_eq_true, if_false]
       unfold readStep
       simp only [he, if_true]
-      by_cases hc : P.cnt c.occ.length = 0
-      · simp only [hc, if_true]; exact invB_check h tid _ hm hni (Nat.le_refl _)
-      · simp only [hc, if_false]
-        apply invB_stp_in h tid _ hni
-        · intro s k hh
+      split
+      · -- the count is a scan of the index
+        split
+        · rename_i hidx
+          apply invB_check h tid _ hm hni
+          have hsub := h.base.sub
+          cases hocc : c.occ with
+          | nil => simp
+          | cons a t =>
+            have := hsub a (by rw [hocc]; exact List.mem_cons_self)
+            rw [hidx] at this; cases this
+        · rename_i e r hidx
+          refine invB_stp_in h tid _ hni (by intro s k hh; cases hh) (by intro s k hh; cases hh) ?_
+          intro rest acc hh
+          simp only [PC.scanning.injEq] at hh
+          rw [← hh.1, ← hh.2, ahead_all _ _ h.base.sub]
+          omega
+      · by_cases hc : P.cnt c.occ.length = 0
+        · simp only [hc, if_true]; exact invB_check h tid _ hm hni (Nat.le_refl _)
+        · simp only [hc, if_false]
+          refine invB_stp_in h tid _ hni ?_ (by intro s k hh; cases hh) (by intro r a hh; cases hh)
+          intro s k hh
           simp only [PC.counting.injEq] at hh
           rw [← hh.1]; exact Nat.le_refl _
-        · intro s k hh; cases hh
     · -- counting
       rename_i snap k hpc
       have hni : inside (c.threads tid).pc = true := by rw [hpc]; rfl
@@ -284,11 +438,10 @@ theorem invB_step {P : Proto} {limit pre I : Nat} {c : Cfg} (h : InvB P limit pr
       by_cases hk : k ≤ 1
       · simp only [hk, if_true]; exact invB_check h tid snap hm hni hs
       · simp only [hk, if_false]
-        apply invB_stp_in h tid _ hni
-        · intro s k' hh
-          simp only [PC.counting.injEq] at hh
-          rw [← hh.1]; exact hs
-        · intro s k' hh; cases hh
+        refine invB_stp_in h tid _ hni ?_ (by intro s k hh; cases hh) (by intro r a hh; cases hh)
+        intro s k' hh
+        simp only [PC.counting.injEq] at hh
+        rw [← hh.1]; exact hs
     · -- passed
       rename_i snap k hpc
       have hni : inside (c.threads tid).pc = true := by rw [hpc]; rfl
@@ -296,16 +449,50 @@ theorem invB_step {P : Proto} {limit pre I : Nat} {c : Cfg} (h : InvB P limit pr
       split
       · unfold finalStep
         simp only [hf]
-        apply invB_admit h tid hm hni
-        exact capOk_mono _ _ _ _ (capOk_succ_of_not_full P limit snap hs.2) (Nat.succ_le_succ hs.1)
-      · apply invB_stp_in h tid _ hni
-        · intro s k' hh; cases hh
-        · intro s k' hh
-          simp only [PC.passed.injEq] at hh
-          rw [← hh.1]; exact hs
-    · exact h
+        have hcap := capOk_mono _ _ _ _ (capOk_succ_of_not_full P limit snap hs.2) (Nat.succ_le_succ hs.1)
+        split
+        · exact invB_admit h tid hm hni hcap
+        · exact invB_admitHold h tid hni hcap
+      · refine invB_stp_in h tid _ hni (by intro s k hh; cases hh) ?_ (by intro r a hh; cases hh)
+        intro s k' hh
+        simp only [PC.passed.injEq] at hh
+        rw [← hh.1]; exact hs
+    · rename_i k hpc
+      have hni : inside (c.threads tid).pc = true := by rw [hpc]; rfl
+      split
+      · exact invB_done h tid hm hni
+      · exact invB_stp_in h tid _ hni (by intro s k hh; cases hh) (by intro s k hh; cases hh) (by intro r a hh; cases hh)
     · simp only [hfu, Bool.false_eq_true, if_false]
       exact h
+    · -- scanning: one record read
+      rename_i rest acc hpc
+      have hni : inside (c.threads tid).pc = true := by rw [hpc]; rfl
+      have hs := old.scn rest acc hpc
+      unfold scanStep
+      split
+      · apply invB_check h tid _ hm hni
+        rw [ahead_nil] at hs; omega
+      · rename_i e r
+        have hadv := scan_advance h.base.nd e r acc hs
+        split
+        · rename_i hr
+          apply invB_check h tid _ hm hni
+          rw [hr, ahead_nil] at hadv; omega
+        · refine invB_stp_in h tid _ hni (by intro s k hh; cases hh) (by intro s k hh; cases hh) ?_
+          intro rest' acc' hh
+          simp only [PC.scanning.injEq] at hh
+          rw [← hh.1, ← hh.2]; exact hadv
+    · exact h
+  · -- revoke through the service: not under the quota mutex
+    rename_i hops
+    have hne : (c.threads tid).ops ≠ [] := by rw [hops]; simp
+    have hI : (c.threads tid).inst = I := old.inst hne
+    split
+    · split
+      · exact invB_stp_out h tid _ hI rfl (by intro s k hh; cases hh) (by intro s k hh; cases hh) (by intro r a hh; cases hh)
+      · exact invB_end h tid
+    · exact invB_revoke h tid _ _ hI
+    · exact h
   · -- a request of another client
     rename_i hops
     have hne : (c.threads tid).ops ≠ [] := by rw [hops]; simp
@@ -314,14 +501,16 @@ theorem invB_step {P : Proto} {limit pre I : Nat} {c : Cfg} (h : InvB P limit pr
     · rename_i hpc
       simp only [hm, if_true]
       exact invB_lock h tid hI hpc
-    · exact ⟨base_blk (c' := blkCfg c tid) h.base tid rfl rfl rfl, h.thr, h.excl⟩
+    · exact ⟨base_blk (c' := blkCfg c tid) h.base tid rfl rfl rfl rfl, h.thr, h.excl⟩
     · rename_i hpc
       exact invB_noise h tid hm (by rw [hpc]; rfl)
     · rename_i k hpc
       have hni : inside (c.threads tid).pc = true := by rw [hpc]; rfl
       split
       · exact invB_done h tid hm hni
-      · exact invB_stp_in h tid _ hni (by intro s k hh; cases hh) (by intro s k hh; cases hh)
+      · exact invB_stp_in h tid _ hni (by intro s k hh; cases hh) (by intro s k hh; cases hh) (by intro r a hh; cases hh)
+    · exact h
+    · exact h
     · exact h
     · exact h
     · exact h
@@ -333,6 +522,29 @@ theorem invB_run {P : Proto} {limit pre I : Nat} (hm : P.mutex = true) (he : P.e
   | cons t r ih =>
     simp only [run, List.foldl_cons]
     exact ih _ (invB_step h t hm he hf hfu)
+
+theorem invB_initDead (P : Proto) (limit dead pre I : Nat) (progs : List (List Op))
+    (h : capOk P.zeroUnl limit pre = true) :
+    InvB P limit pre I (initDead dead pre (progs.map (fun p => (I, p)))) := by
+  refine ⟨base_initDead _ _ _ _ _ h, ?_, ?_⟩
+  · intro i
+    simp only [initDead, mkThreads]
+    cases hi : (progs.map (fun p => (I, p)))[i]? with
+    | none =>
+      exact idleThread_ok (P := P) (limit := limit) ⟨0, [], .idle, none⟩ ⟨0, [], .idle, none⟩ rfl rfl (fun hh => hh)
+        (fun hh => absurd rfl hh)
+    | some p =>
+      simp only [mkThread]
+      rw [List.getElem?_map] at hi
+      cases hp : progs[i]? with
+      | none => simp [hp] at hi
+      | some q =>
+        simp [hp] at hi
+        exact idleThread_ok (P := P) (limit := limit) ⟨p.1, p.2, .idle, none⟩ ⟨p.1, p.2, .idle, none⟩ rfl rfl (fun hh => hh)
+          (fun _ => by rw [← hi])
+  · intro i j hi
+    simp only [initDead, mkThreads] at hi
+    split at hi <;> simp [mkThread, inside] at hi
 
 theorem invB_init (P : Proto) (limit pre I : Nat) (progs : List (List Op))
     (h : capOk P.zeroUnl limit pre = true) :
